@@ -6,6 +6,7 @@ import Jap.Core.Adapt
 import Jap.Core.AdaptPins
 import Jap.Gen.AdaptTables
 import Jap.Lemmas.AdaptStr
+import Jap.Lemmas.AdaptRestr
 namespace Jap.Props.C02
 open Jap.Adapt
 
@@ -26,6 +27,25 @@ theorem tie_tuple_branch : Jap.Gen.tupleArityTest = Pins.tupleArityTest ∧ Jap.
 theorem tie_container_elems : Jap.Gen.seqElemSrc = Pins.seqElemSrc ∧ Jap.Gen.mapElemSrc = Pins.mapElemSrc := by first | rfl | exact ⟨rfl, rfl⟩ | exact ⟨rfl, rfl, rfl⟩
 theorem tie_sort_src : Jap.Gen.sortSrc = Pins.sortSrc := by first | rfl | exact ⟨rfl, rfl⟩ | exact ⟨rfl, rfl, rfl⟩
 theorem tie_check_type : Jap.Gen.checkTypeSkeleton = Pins.checkTypeSkeleton ∧ Jap.Gen.isValidStringSrc = Pins.isValidStringSrc := by first | rfl | exact ⟨rfl, rfl⟩ | exact ⟨rfl, rfl, rfl⟩
+
+/-! every statement of the branches the model transcribes (not only the decisive ones), the whole of `_check_type`,
+    the loader front end (`parse_value_or_config`, `load_value`, `load_basic`) and, from typing.py, what the
+    restricted / registered leaves of the model transcribe -/
+theorem tie_prologue : Jap.Gen.adaptPrologueSrc = Pins.adaptPrologueSrc ∧ Jap.Gen.adaptEpilogueSrc = Pins.adaptEpilogueSrc
+    ∧ Jap.Gen.adaptSignature = Pins.adaptSignature := by first | rfl | exact ⟨rfl, rfl⟩ | exact ⟨rfl, rfl, rfl⟩ | exact ⟨rfl, rfl, rfl, rfl⟩ | exact ⟨rfl, rfl, rfl, rfl, rfl⟩
+theorem tie_any_branch : Jap.Gen.anyBranchSrc = Pins.anyBranchSrc := by first | rfl | exact ⟨rfl, rfl⟩ | exact ⟨rfl, rfl, rfl⟩ | exact ⟨rfl, rfl, rfl, rfl⟩ | exact ⟨rfl, rfl, rfl, rfl, rfl⟩
+theorem tie_registered_branch : Jap.Gen.registeredBranchSrc = Pins.registeredBranchSrc := by first | rfl | exact ⟨rfl, rfl⟩ | exact ⟨rfl, rfl, rfl⟩ | exact ⟨rfl, rfl, rfl, rfl⟩ | exact ⟨rfl, rfl, rfl, rfl, rfl⟩
+theorem tie_container_branches : Jap.Gen.tupleSetBranchSrc = Pins.tupleSetBranchSrc ∧ Jap.Gen.sequenceBranchSrc = Pins.sequenceBranchSrc
+    ∧ Jap.Gen.mappingBranchSrc = Pins.mappingBranchSrc := by first | rfl | exact ⟨rfl, rfl⟩ | exact ⟨rfl, rfl, rfl⟩ | exact ⟨rfl, rfl, rfl, rfl⟩ | exact ⟨rfl, rfl, rfl, rfl, rfl⟩
+theorem tie_check_type_src : Jap.Gen.checkTypeSrc = Pins.checkTypeSrc := by first | rfl | exact ⟨rfl, rfl⟩ | exact ⟨rfl, rfl, rfl⟩ | exact ⟨rfl, rfl, rfl, rfl⟩ | exact ⟨rfl, rfl, rfl, rfl, rfl⟩
+theorem tie_loader_front : Jap.Gen.parseValueOrConfigSrc = Pins.parseValueOrConfigSrc ∧ Jap.Gen.loadValueSrc = Pins.loadValueSrc
+    ∧ Jap.Gen.loadBasicSrc = Pins.loadBasicSrc := by first | rfl | exact ⟨rfl, rfl⟩ | exact ⟨rfl, rfl, rfl⟩ | exact ⟨rfl, rfl, rfl, rfl⟩ | exact ⟨rfl, rfl, rfl, rfl, rfl⟩
+/-- `restricted_string_type.validation_fn` uses `cls._regex.match` (a match from the start, `Re.accepts`), the number
+    types compare `cls._type(v)` after the bool / non-integer guards, `__new__` validates and then casts -/
+theorem tie_restricted_validation : Jap.Gen.restrictedNumberValidationSrc = Pins.restrictedNumberValidationSrc
+    ∧ Jap.Gen.restrictedStringValidationSrc = Pins.restrictedStringValidationSrc ∧ Jap.Gen.typeCoreNewSrc = Pins.typeCoreNewSrc
+    ∧ Jap.Gen.restrictedOperators = Pins.restrictedOperators := by first | rfl | exact ⟨rfl, rfl⟩ | exact ⟨rfl, rfl, rfl⟩ | exact ⟨rfl, rfl, rfl, rfl⟩ | exact ⟨rfl, rfl, rfl, rfl, rfl⟩
+theorem tie_registered_type : Jap.Gen.registeredTypeSrc = Pins.registeredTypeSrc ∧ Jap.Gen.addTypeRegisterSrc = Pins.addTypeRegisterSrc := by first | rfl | exact ⟨rfl, rfl⟩ | exact ⟨rfl, rfl, rfl⟩ | exact ⟨rfl, rfl, rfl, rfl⟩ | exact ⟨rfl, rfl, rfl, rfl, rfl⟩
 
 /-- probe list of the extractor: `[int, List[int], NoneType, Dict[str,int], str, Tuple[int], Set[int], NoneType, List[str]]` -/
 def sortProbe : List (Nat × Ty) :=
@@ -55,43 +75,43 @@ def O0 : Oracle where
 /-! ### soundness: accepted values conform
 
 Full statement (FALSE for the code and hence for the model):
-  `theorem C02_sound : adapt O false orig t v = .ok w → Conforms t w`
+  `theorem C02_sound : adapt O false orig t v = .ok w → Conforms O.rnumOk t w`
 It fails in exactly two ways, both known findings: `Literal` membership is tested with Python `==`
 (row 5e), and the keys of a `Dict[str, V]` are not looked at. -/
 
 /-- counterexample 1 (finding C02-literal-pyeq): `Literal[1, 2]` accepts `True` and returns it -/
 theorem C02_sound_fails_literal :
     adapt O0 false .none (.literal [.int 1, .int 2]) (.bool true) = .ok (.bool true) ∧
-    conf (.literal [.int 1, .int 2]) (.bool true) = false := by
+    conf O0.rnumOk (.literal [.int 1, .int 2]) (.bool true) = false := by
   constructor <;> rfl
 
 /-- counterexample 2 (finding C02-dict-key-unchecked): `Dict[str, int]` accepts `{1: 2}` -/
 theorem C02_sound_fails_dict_key :
     adapt O0 false .none (.dict .str .int) (.dict [(.int 1, .int 2)]) = .ok (.dict [(.int 1, .int 2)]) ∧
-    conf (.dict .str .int) (.dict [(.int 1, .int 2)]) = false := by
+    conf O0.rnumOk (.dict .str .int) (.dict [(.int 1, .int 2)]) = false := by
   constructor <;> rfl
 
 /-- **soundness at full strength for the validator relaxed at exactly these two points**: for every type hint,
     value, original string and loader, what the adapter returns conforms when Literal members are compared
     with `==` and dictionary keys are ignored -/
 theorem C02_sound_relaxed (O : Oracle) (t : Ty) (orig : Option String) (v w : Val)
-    (h : adapt O false orig t v = .ok w) : confL true true t w = true :=
+    (h : adapt O false orig t v = .ok w) : confL O.rnumOk true true t w = true :=
   sound_gen O true true t orig v w (by simp) (by simp) h
 
 /-- only the Literal relaxation is needed when the value has string keys only (what JSON can express) -/
 theorem C02_sound_keys (O : Oracle) (t : Ty) (orig : Option String) (v w : Val) (hk : strKeys v = true)
-    (h : adapt O false orig t v = .ok w) : confL true false t w = true :=
+    (h : adapt O false orig t v = .ok w) : confL O.rnumOk true false t w = true :=
   sound_gen O true false t orig v w (by simp) (fun _ => hk) h
 
 /-- only the key relaxation is needed when every Literal has string members only -/
 theorem C02_sound_literals (O : Oracle) (t : Ty) (orig : Option String) (v w : Val) (hl : litStrOnly t = true)
-    (h : adapt O false orig t v = .ok w) : confL false true t w = true :=
+    (h : adapt O false orig t v = .ok w) : confL O.rnumOk false true t w = true :=
   sound_gen O false true t orig v w (fun _ => hl) (by simp) h
 
 /-- **C02_sound_partial**: strict conformance under the two forced hypotheses -/
 theorem C02_sound_partial (O : Oracle) (t : Ty) (orig : Option String) (v w : Val)
     (hl : litStrOnly t = true) (hk : strKeys v = true)
-    (h : adapt O false orig t v = .ok w) : Conforms t w :=
+    (h : adapt O false orig t v = .ok w) : Conforms O.rnumOk t w :=
   sound_gen O false false t orig v w (fun _ => hl) (fun _ => hk) h
 
 /-- the hypotheses are satisfiable by a non-trivial case (a conversion at every level) -/
@@ -103,22 +123,22 @@ example : litStrOnly (.dict .int (.union [.tuple [.float, .literal [.str "a"]], 
 
 /-- soundness of the whole `_check_type` (both channels), relaxed and strict -/
 theorem C02_sound_checkType_relaxed (O : Oracle) (t : Ty) (v w : Val) (h : checkType O t v = .ok w) :
-    confL true true t w = true :=
+    confL O.rnumOk true true t w = true :=
   checkType_sound O true true t v w (by simp) (by simp) h
 
 theorem C02_sound_checkType_partial (O : Oracle) (t : Ty) (v w : Val)
     (hl : litStrOnly t = true) (hk : strKeys (parseValueOrConfig O v) = true)
-    (h : checkType O t v = .ok w) : Conforms t w :=
+    (h : checkType O t v = .ok w) : Conforms O.rnumOk t w :=
   checkType_sound O false false t v w (fun _ => hl) (fun _ => hk) h
 
 /-! ### a value of the right shape is never rejected
 
-Full statement (FALSE): `Conforms t v → accepts O t v`.  It fails for a `Set` whose element type has an
+Full statement (FALSE): `Conforms O.rnumOk t v → accepts O t v`.  It fails for a `Set` whose element type has an
 alternative that converts the element to something unhashable (finding C02-set-element-becomes-unhashable). -/
 
 /-- counterexample: `Set[Union[List[int], Tuple[int, ...]]]` rejects the conforming `{(1, 2)}` … -/
 theorem C02_shape_fails_set :
-    conf (.set (.union [.list .int, .tupleVar .int])) (.set [.tuple [.int 1, .int 2]]) = true ∧
+    conf O0.rnumOk (.set (.union [.list .int, .tupleVar .int])) (.set [.tuple [.int 1, .int 2]]) = true ∧
     adapt O0 false .none (.set (.union [.list .int, .tupleVar .int])) (.set [.tuple [.int 1, .int 2]]) = .error .type := by
   constructor <;> rfl
 
@@ -130,14 +150,14 @@ theorem C02_shape_set_order_dependent :
 /-- **C02_shape_partial**: when every Set in the hint has an element type whose adapted values are always
     hashable (`setSafe`), a conforming value is accepted — whatever the loader and the original string -/
 theorem C02_shape_partial (O : Oracle) (t : Ty) (orig : Option String) (v : Val)
-    (hs : setSafe t = true) (hc : Conforms t v) : isOk (adapt O false orig t v) = true :=
+    (hs : setSafe t = true) (hc : Conforms O.rnumOk t v) : isOk (adapt O false orig t v) = true :=
   shape_gen O t orig v hc hs
 
 example : setSafe (.set (.union [.tuple [.int, .enum 0 ["a"]], .literal [.int 1], .none])) = true := by rfl
 
 /-- the same through `_check_type` for a non-string value (`parse_object`) -/
 theorem C02_shape_checkType (O : Oracle) (t : Ty) (v : Val) (hv : isStr v = false)
-    (hs : setSafe t = true) (hc : Conforms t v) : isOk (checkType O t v) = true := by
+    (hs : setSafe t = true) (hc : Conforms O.rnumOk t v) : isOk (checkType O t v) = true := by
   rw [checkType_nonstr O t v hv]; exact shape_gen O t .none v hc hs
 
 /-! ### containers are accepted exactly when every element is (value channel and, identically, inside an
@@ -274,6 +294,211 @@ theorem C02_fallback_dead (O : Oracle) (t : Ty) (v : Val) (e : Err)
     rw [h] at this; simp at this
 
 
+/-! ### restricted types (`restricted_number_type` / `restricted_string_type`) as leaves anywhere in the grammar
+
+`Ty.rnum b k` is the restricted type number `k` with base type `b`; its restriction is `O.rnumOk k`.  `Conforms`
+includes the restriction, so every theorem above (soundness, shape, the container and Union iffs, permutation
+invariance) covers restricted leaves at any depth, for EVERY predicate.  Below the predicate is the one
+*computed* from the specification of the type (`Oracle.withRestr O tab`): the `(comparison, reference)` pairs and
+the join of a number type, the regular expression of a string type with the meaning of `regex.match`. -/
+
+/-- **restricted leaf, exactly**: accepted iff the value converts to the base type and the converted value
+    satisfies the restriction; the converted value is the result -/
+theorem C02_restricted_exact (O : Oracle) (orig : Option String) (b : RBase) (k : Nat) (v w : Val) :
+    adapt O false orig (.rnum b k) v = .ok w ↔ rnumConv O b v = some w ∧ O.rnumOk k w = true :=
+  rnum_exact O orig b k v w
+
+/-- **restricted string type with regular expression `r`**: exactly the strings that `r` matches FROM THEIR START
+    (`regex.match`), returned verbatim; nothing else (numbers, None, containers) -/
+theorem C02_restricted_str_exact (O : Oracle) (tab : RTab) (orig : Option String) (k : Nat) (r : Re)
+    (hk : tab k = some (.re r)) (v w : Val) :
+    adapt (O.withRestr tab) false orig (.rnum .str k) v = .ok w ↔ ∃ s, v = .str s ∧ w = .str s ∧ r.accepts s = true :=
+  rstr_exact O tab orig k r hk v w
+
+/-- **restricted number type**: exactly the values that convert and satisfy the comparisons joined by and / or -/
+theorem C02_restricted_num_exact (O : Oracle) (tab : RTab) (orig : Option String) (b : RBase) (k : Nat) (isOr : Bool)
+    (rs : List (Cmp × Num)) (hk : tab k = some (.num isOr rs)) (v w : Val) :
+    adapt (O.withRestr tab) false orig (.rnum b k) v = .ok w ↔
+      rnumConv O b v = some w ∧ ∃ x, numOfVal w = some x ∧ numOk isOr rs x = true :=
+  rnumber_exact O tab orig b k isOr rs hk v w
+
+/-- **soundness with computed predicates**: whatever the adapter accepts for a type hint with restricted leaves
+    nested anywhere conforms, the predicates of the specifications included (validator relaxed at Literal `==`
+    and dict keys; strict under the hypotheses of `C02_sound_partial`, which is stated for every oracle) -/
+theorem C02_sound_restricted (O : Oracle) (tab : RTab) (t : Ty) (orig : Option String) (v w : Val)
+    (h : adapt (O.withRestr tab) false orig t v = .ok w) : confL (O.withRestr tab).rnumOk true true t w = true :=
+  sound_gen (O.withRestr tab) true true t orig v w (by simp) (by simp) h
+
+/-- `[0-9a-f]+$` and `v[0-9]+\.[0-9]+`: two user-defined restricted string types (not anchored with `^`) -/
+def hexRe : Re := .cat (.cat (.cls false [(48, 57), (97, 102)]) (.star (.cls false [(48, 57), (97, 102)]))) .eol
+def verRe : Re :=
+  .cat (.cls false [(118, 118)]) (.cat (.cat (.cls false [(48, 57)]) (.star (.cls false [(48, 57)])))
+    (.cat (.cls false [(46, 46)]) (.cat (.cls false [(48, 57)]) (.star (.cls false [(48, 57)])))))
+def tab0 : RTab := fun k =>
+  if k = 0 then some (.re hexRe) else if k = 1 then some (.re verRe)
+  else if k = 2 then some (.num false [(.gt, .dec 0 0), (.le, .dec 10 (-1))])       -- 0 < v <= 1.0
+  else if k = 3 then some (.num true [(.lt, .dec 0 0), (.ge, .dec 10 0)])            -- v < 0 or v >= 10
+  else .none
+
+/-- non-vacuity: restricted leaves inside `Optional[List[Union[Hex, int]]]`, `Dict[str, Ver]`, `Tuple[Hex, Unit]`;
+    a matching element is accepted, an element that only CONTAINS a match is refused, and so is the container -/
+example :
+    adapt (O0.withRestr tab0) false .none (.union [.list (.union [.rnum .str 0, .int]), .none]) (.list [.str "00ff", .int 3])
+      = .ok (.list [.str "00ff", .int 3]) ∧
+    adapt (O0.withRestr tab0) false .none (.union [.list (.union [.rnum .str 0, .int]), .none]) (.list [.str "g-ff", .int 3])
+      = .error .value ∧
+    adapt (O0.withRestr tab0) false .none (.dict .str (.rnum .str 1)) (.dict [(.str "a", .str "v1.0"), (.str "b", .str "dev1.0")])
+      = .error .value ∧
+    adapt (O0.withRestr tab0) false .none (.tuple [.rnum .str 0, .rnum .float 2]) (.list [.str "0a", .flt "0.5"])
+      = .ok (.tuple [.str "0a", .flt "0.5"]) ∧
+    adapt (O0.withRestr tab0) false .none (.tuple [.rnum .str 0, .rnum .float 2]) (.list [.str "0a", .flt "1.5"])
+      = .error .value ∧
+    adapt (O0.withRestr tab0) false .none (.set (.rnum .int 3)) (.list [.int (-1), .int 10, .int 12])
+      = .ok (.set [.int (-1), .int 10, .int 12]) ∧
+    adapt (O0.withRestr tab0) false .none (.set (.rnum .int 3)) (.list [.int (-1), .int 5]) = .error .value := by
+  refine ⟨rfl, rfl, rfl, rfl, rfl, rfl, rfl⟩
+
+/-- non-vacuity of `C02_sound_restricted` / `C02_shape_partial` on these types -/
+example : conf (O0.withRestr tab0).rnumOk (.tuple [.rnum .str 0, .rnum .float 2]) (.tuple [.str "0a", .flt "0.5"]) = true ∧
+    conf (O0.withRestr tab0).rnumOk (.tuple [.rnum .str 0, .rnum .float 2]) (.tuple [.str "x0a", .flt "0.5"]) = false ∧
+    setSafe (.set (.tuple [.rnum .str 0, .rnum .float 2])) = true := by
+  refine ⟨rfl, rfl, rfl⟩
+
+/-- **`match` is not `search`**: a string that merely contains a match is refused (`regex.match` anchors at the
+    start); `search` would let it through — the difference a one-word edit of `validation_fn` makes -/
+theorem C02_match_not_search :
+    hexRe.accepts "xx00ff" = false ∧ hexRe.searches "xx00ff" = true ∧
+    verRe.accepts "rev1.2" = false ∧ verRe.searches "rev1.2" = true ∧
+    adapt (O0.withRestr tab0) false .none (.list (.rnum .str 0)) (.list [.str "0a", .str "zzff"]) = .error .value := by
+  refine ⟨rfl, rfl, rfl, rfl, rfl⟩
+
+/-- what `match` accepts, `search` accepts … -/
+theorem C02_match_search (r : Re) (s : String) (h : r.accepts s = true) : r.searches s = true :=
+  accepts_searches r s h
+
+/-- … and for a pattern that starts with `^` the two agree on every string (why no anchored pattern — every
+    pattern that ships with the library or occurs in its tests — can tell them apart) -/
+theorem C02_search_anchored (r : Re) (s : String) : (Re.cat .bol r).searches s = (Re.cat .bol r).accepts s :=
+  searches_anchored r s
+
+/-- **string channel: an argument of a restricted string type is judged on its text alone** — whatever the
+    loader makes of the text (`null`, `[1]`, `0x1f`): accepted exactly when the predicate holds, returned verbatim -/
+theorem C02_restricted_str_verbatim (O : Oracle) (k : Nat) (s : String) :
+    adaptStr O (.rnum .str k) s = if O.rnumOk k (.str s) then .ok (.str s) else .error .type :=
+  checkType_rstr O k s
+
+example : adaptStr (O0.withRestr tab0) (.rnum .str 0) "1" = .ok (.str "1") ∧
+    adaptStr (O0.withRestr tab0) (.rnum .str 0) "null" = .error .type ∧
+    adaptStr (O0.withRestr tab0) (.rnum .str 0) "0x1f" = .error .type := by
+  refine ⟨rfl, rfl, rfl⟩
+
+/-! ### containers in the string channel
+
+An argument text for a container type is accepted exactly when what the loader made of it is accepted: the
+retry with the original text and the `_is_valid_string` fallback never apply to a container type.  Elements are
+judged in the value channel (they never see the argument text). -/
+
+theorem C02_container_str (O : Oracle) (t : Ty) (s : String) (ht : isContainerTy t = true) :
+    acceptsStr O t s = isOk (adapt O false (some s) t (parseValueOrConfig O (.str s))) := by
+  simp only [acceptsStr, adaptStr, ← isOk_eq_not_isErr]
+  exact checkType_container O t s ht
+
+theorem C02_list_iff_str (O : Oracle) (t : Ty) (s : String) :
+    acceptsStr O (.list t) s = true ↔
+      ∃ xs, seqItems (parseValueOrConfig O (.str s)) = some xs ∧ ∀ x ∈ xs, accepts O t x = true := by
+  rw [C02_container_str O _ s rfl]
+  cases hs : seqItems (parseValueOrConfig O (.str s)) with
+  | none => simp [adapt, hs]
+  | some xs =>
+    rw [list_isOk O (some s) t _ xs hs, List.all_eq_true]
+    simp [accepts, isOk_eq_not_isErr]
+
+theorem C02_tupleVar_iff_str (O : Oracle) (t : Ty) (s : String) :
+    acceptsStr O (.tupleVar t) s = true ↔
+      ∃ xs, seqItems (parseValueOrConfig O (.str s)) = some xs ∧ ∀ x ∈ xs, accepts O t x = true := by
+  rw [C02_container_str O _ s rfl]
+  cases hs : seqItems (parseValueOrConfig O (.str s)) with
+  | none => simp [adapt, hs]
+  | some xs =>
+    rw [tupleVar_isOk O (some s) t _ xs hs, List.all_eq_true]
+    simp [accepts, isOk_eq_not_isErr]
+
+theorem C02_tuple_iff_str (O : Oracle) (ts : List Ty) (s : String) :
+    acceptsStr O (.tuple ts) s = true ↔
+      ∃ xs, seqItems (parseValueOrConfig O (.str s)) = some xs ∧ xs.length = ts.length ∧
+        ∀ tx ∈ ts.zip xs, accepts O tx.1 tx.2 = true := by
+  rw [C02_container_str O _ s rfl]
+  cases hs : seqItems (parseValueOrConfig O (.str s)) with
+  | none => simp [adapt, hs]
+  | some xs =>
+    rw [tuple_isOk_iff O (some s) ts _ xs hs]
+    simp [accepts, isOk_eq_not_isErr]
+
+theorem C02_set_iff_str (O : Oracle) (t : Ty) (s : String) (ht : hashTy t = true) :
+    acceptsStr O (.set t) s = true ↔
+      ∃ xs, seqItems (parseValueOrConfig O (.str s)) = some xs ∧ ∀ x ∈ xs, accepts O t x = true := by
+  rw [C02_container_str O _ s rfl]
+  cases hs : seqItems (parseValueOrConfig O (.str s)) with
+  | none => simp [adapt, hs]
+  | some xs =>
+    rw [set_isOk_hashTy O (some s) t _ xs hs ht, List.all_eq_true]
+    simp [accepts, isOk_eq_not_isErr]
+
+theorem C02_dict_iff_str (O : Oracle) (t : Ty) (s : String) :
+    acceptsStr O (.dict .str t) s = true ↔
+      ∃ kvs, parseValueOrConfig O (.str s) = .dict kvs ∧ ∀ kv ∈ kvs, accepts O t kv.2 = true := by
+  rw [C02_container_str O _ s rfl]
+  cases hv : parseValueOrConfig O (.str s) with
+  | dict kvs =>
+    rw [dictStr_isOk, List.all_eq_true]
+    simp [accepts, isOk_eq_not_isErr]
+  | _ => simp [adapt]
+
+/-- non-vacuity: `--k=[1]` for `List[int]` and `List[str]` -/
+example : acceptsStr O0 (.list .int) "[1]" = true ∧ acceptsStr O0 (.list .str) "[1]" = false ∧
+    acceptsStr O0 (.tuple [.int]) "[1]" = true ∧ acceptsStr O0 (.tuple [.int, .int]) "[1]" = false ∧
+    acceptsStr O0 (.set .float) "[1]" = true ∧ acceptsStr O0 (.list .int) "1" = false := by
+  refine ⟨rfl, rfl, rfl, rfl, rfl, rfl⟩
+
+
+/-! ### Enum, None and Optional, exactly -/
+
+/-- **Enum**: exactly the members of THIS Enum (returned as they are) and the names of its members (converted) -/
+theorem C02_enum_exact (O : Oracle) (orig : Option String) (c : Nat) (ms : List String) (v w : Val) :
+    adapt O false orig (.enum c ms) v = .ok w ↔
+      (∃ n, v = .enum c n ∧ n ∈ ms ∧ w = .enum c n) ∨ (∃ s, v = .str s ∧ s ∈ ms ∧ w = .enum c s) :=
+  enum_exact O orig c ms v w
+
+/-- **None**: exactly `None` and the texts the loader reads as null -/
+theorem C02_none_exact (O : Oracle) (orig : Option String) (v w : Val) :
+    adapt O false orig .none v = .ok w ↔ loadIfStr O v = .null ∧ w = .null :=
+  none_exact O orig v w
+
+/-- **Optional[t]** accepts exactly what `t` accepts, `None`, and the texts the loader reads as null — wherever
+    `None` is written among the members -/
+theorem C02_optional_iff (O : Oracle) (t : Ty) (v : Val) :
+    accepts O (.union [t, .none]) v = true ↔ accepts O t v = true ∨ loadIfStr O v = .null := by
+  rw [C02_union_iff]
+  have hn : accepts O .none v = true ↔ loadIfStr O v = .null := by
+    simp only [accepts, ← isOk_eq_not_isErr, isOk_iff]
+    constructor
+    · rintro ⟨w, hw⟩; exact ((none_exact O .none v w).mp hw).1
+    · intro h; exact ⟨.null, (none_exact O .none v .null).mpr ⟨h, rfl⟩⟩
+  constructor
+  · rintro ⟨t', hm, ha⟩
+    rcases List.mem_cons.mp hm with rfl | hm
+    · exact Or.inl ha
+    · have : t' = .none := by simpa using hm
+      subst this; exact Or.inr (hn.mp ha)
+  · rintro (h | h)
+    · exact ⟨t, by simp, h⟩
+    · exact ⟨.none, by simp, hn.mpr h⟩
+
+example : accepts O0 (.union [.enum 0 ["red"], .none]) (.str "null") = true ∧
+    accepts O0 (.union [.none, .enum 0 ["red"]]) (.str "red") = true ∧
+    accepts O0 (.union [.enum 0 ["red"], .none]) (.str "blue") = false := by
+  refine ⟨rfl, rfl, rfl⟩
+
 /-! ### arguments that have a default
 
 `adapt_typehints` returns early when `type(val) in {str, bool, int, float} and val == default` (Python `==`, so
@@ -292,19 +517,19 @@ theorem C02_default_result (O : Oracle) (t : Ty) (d v w : Val) (h : checkTypeD O
 
 /-- **C02_sound_with_default**: when the default conforms, every accepted value conforms (relaxed validator, no
     further hypothesis; strict validator under the two hypotheses of `C02_sound_partial`) -/
-theorem C02_sound_with_default (O : Oracle) (t : Ty) (d v w : Val) (hd : confL true true t d = true)
-    (h : checkTypeD O t (some d) v = .ok w) : confL true true t w = true :=
+theorem C02_sound_with_default (O : Oracle) (t : Ty) (d v w : Val) (hd : confL O.rnumOk true true t d = true)
+    (h : checkTypeD O t (some d) v = .ok w) : confL O.rnumOk true true t w = true :=
   checkTypeD_sound O true true t d v w (by simp) (by simp) hd h
 
 theorem C02_sound_with_default_partial (O : Oracle) (t : Ty) (d v w : Val)
-    (hl : litStrOnly t = true) (hk : strKeys (parseValueOrConfig O v) = true) (hd : Conforms t d)
-    (h : checkTypeD O t (some d) v = .ok w) : Conforms t w :=
+    (hl : litStrOnly t = true) (hk : strKeys (parseValueOrConfig O v) = true) (hd : Conforms O.rnumOk t d)
+    (h : checkTypeD O t (some d) v = .ok w) : Conforms O.rnumOk t w :=
   checkTypeD_sound O false false t d v w (fun _ => hl) (fun _ => hk) hd h
 
 /-- where it fails: a string SENTINEL default that does not conform is returned for the equal text
     (`type=int, default='auto'`, `--k=auto`; finding C02-string-sentinel-default) -/
 theorem C02_sound_with_default_fails_sentinel :
-    checkTypeD O0 .int (some (.str "auto")) (.str "auto") = .ok (.str "auto") ∧ conf .int (.str "auto") = false := by
+    checkTypeD O0 .int (some (.str "auto")) (.str "auto") = .ok (.str "auto") ∧ conf O0.rnumOk .int (.str "auto") = false := by
   exact ⟨rfl, rfl⟩
 
 /-- the kind confusion of `==` is not reachable through `_check_type`: `type=int, default=1` refuses `True` and `1.0` -/
@@ -317,13 +542,13 @@ theorem C02_default_no_kind_confusion :
 /-- the early return itself, whoever calls it with a default (`serialize` does): it is sound when the default
     conforms and a value equal to the default is of the default's own kind (`noKindConfusion`) … -/
 theorem C02_sound_early_return (O : Oracle) (t : Ty) (orig : Option String) (d v w : Val)
-    (hd : confL true true t d = true) (hn : isSBIF v = true → pyEq v d = true → noKindConfusion v d = true)
-    (h : adaptD O false orig (some d) t v = .ok w) : confL true true t w = true :=
+    (hd : confL O.rnumOk true true t d = true) (hn : isSBIF v = true → pyEq v d = true → noKindConfusion v d = true)
+    (h : adaptD O false orig (some d) t v = .ok w) : confL O.rnumOk true true t w = true :=
   adaptD_sound O true true t orig d v w (by simp) (by simp) hd hn h
 
 /-- … and not otherwise: called directly with default `1`, it returns `True` for an `int` -/
 theorem C02_early_return_kind_confusion :
-    adaptD O0 false .none (some (.int 1)) .int (.bool true) = .ok (.bool true) ∧ conf .int (.bool true) = false := by
+    adaptD O0 false .none (some (.int 1)) .int (.bool true) = .ok (.bool true) ∧ conf O0.rnumOk .int (.bool true) = false := by
   exact ⟨rfl, rfl⟩
 
 example : noKindConfusion (.int 1) (.int 1) = true ∧ noKindConfusion (.bool true) (.int 1) = false := ⟨rfl, rfl⟩
